@@ -7,7 +7,7 @@
 static CC_TreeSet *ts;
 static CC_TreeSetIter it; static int have_it;
 static int sparse;   /* obs=sparse: no content sweep after the operations, only on `observe` */
-static void shim_reset(void) { ts = NULL; have_it = 0; cmp_calls = 0; sparse = 0; ids_reset(); }
+static void shim_reset(void) { ts = NULL; have_it = 0; cmp_calls = 0; sparse = 0; bufkeys = 0; quiet = 0; walk_blocks = 1; karena_n = 0; ids_reset(); }
 
 /* content through the public API: a fresh iterator (no comparator calls) */
 static void obs_abs(void) {
@@ -15,7 +15,7 @@ static void obs_abs(void) {
     if (ts) {
         CC_TreeSetIter i; void *e = PTR(777777);
         cc_treeset_iter_init(&i, ts);
-        while (cc_treeset_iter_next(&i, &e) != CC_ITER_END) o_item(VAL(e));
+        while (cc_treeset_iter_next(&i, &e) != CC_ITER_END) o_item(kval(e));
     }
     o_end();
     o(" size=%zu", ts ? cc_treeset_size(ts) : (size_t)0);
@@ -24,7 +24,7 @@ static void phys(void) {
     if (!ts) { o("-"); return; }
     phys_tree(ts->t, have_it ? &it.i : NULL);
     if (ts->dummy != (int *)1) o(" WALK=dummy");
-    if (block_size(ts) < sizeof(CC_TreeSet)) o(" WALK=set-block");
+    if (block_size(ts) < sizeof(CC_TreeSet)) o(" WALK=set-block");   /* one ledger lookup: cheap also when quiet */
 }
 static void do_op(Cmd *c) {
     void *out = PTR(777777); enum cc_stat st;
@@ -34,6 +34,8 @@ static void do_op(Cmd *c) {
     if (is_op(c, "new") || is_op(c, "new_default")) {
         int which = (int)kv_u64(c, "cmp", 0);
         sparse = !strcmp(kv_str(c, "obs", ""), "sparse"); ids_reset();
+        bufkeys = !strcmp(kv_str(c, "keys", ""), "buf"); karena_n = 0;      /* keys=buf: see tree_common.h */
+        quiet = !strcmp(kv_str(c, "phys", ""), "quiet"); walk_blocks = !quiet;  /* phys=quiet: checksum instead of the dump */
         ts = NULL; have_it = 0;
         if (is_op(c, "new")) {
             CC_TreeSetConf conf; cc_treeset_conf_init(&conf);
@@ -45,24 +47,24 @@ static void do_op(Cmd *c) {
         o_stat(st); o(" ");
     } else if (!ts) { o("st=- nosession"); o_sep(); o("-"); return;
     } else if (is_op(c, "add")) {
-        st = cc_treeset_add(ts, PTR(pos_u64(c, 0))); o_stat(st); o(" ");
+        st = cc_treeset_add(ts, KEY(pos_u64(c, 0))); o_stat(st); o(" ");
     } else if (is_op(c, "remove")) {
-        st = cc_treeset_remove(ts, PTR(pos_u64(c, 0)), noout ? NULL : &out); o_stat(st);
+        st = cc_treeset_remove(ts, KEY(pos_u64(c, 0)), noout ? NULL : &out); o_stat(st);
         if (st == CC_OK && !noout) o(" out=%llu", VAL(out)); o(" ");
     } else if (is_op(c, "remove_all")) {
         cc_treeset_remove_all(ts); o("st=- ");
     } else if (is_op(c, "contains")) {
-        bool b = cc_treeset_contains(ts, PTR(pos_u64(c, 0))); o("st=- out=%d ", (int)b);
+        bool b = cc_treeset_contains(ts, KEY(pos_u64(c, 0))); o("st=- out=%d ", (int)b);
     } else if (is_op(c, "size")) {
         o("st=- out=%zu ", cc_treeset_size(ts));
     } else if (is_op(c, "first")) {
-        st = cc_treeset_get_first(ts, &out); o_stat(st); if (st == CC_OK) o(" out=%llu", VAL(out)); o(" ");
+        st = cc_treeset_get_first(ts, &out); o_stat(st); if (st == CC_OK) o(" out=%llu", kval(out)); o(" ");
     } else if (is_op(c, "last")) {
-        st = cc_treeset_get_last(ts, &out); o_stat(st); if (st == CC_OK) o(" out=%llu", VAL(out)); o(" ");
+        st = cc_treeset_get_last(ts, &out); o_stat(st); if (st == CC_OK) o(" out=%llu", kval(out)); o(" ");
     } else if (is_op(c, "greater_than")) {
-        st = cc_treeset_get_greater_than(ts, PTR(pos_u64(c, 0)), &out); o_stat(st); if (st == CC_OK) o(" out=%llu", VAL(out)); o(" ");
+        st = cc_treeset_get_greater_than(ts, KEY(pos_u64(c, 0)), &out); o_stat(st); if (st == CC_OK) o(" out=%llu", kval(out)); o(" ");
     } else if (is_op(c, "lesser_than")) {
-        st = cc_treeset_get_lesser_than(ts, PTR(pos_u64(c, 0)), &out); o_stat(st); if (st == CC_OK) o(" out=%llu", VAL(out)); o(" ");
+        st = cc_treeset_get_lesser_than(ts, KEY(pos_u64(c, 0)), &out); o_stat(st); if (st == CC_OK) o(" out=%llu", kval(out)); o(" ");
     } else if (is_op(c, "foreach")) {
         cc_treeset_foreach(ts, cb_key); o("st=- "); o_cb(); o(" ");
     } else if (is_op(c, "it_new")) {
@@ -73,13 +75,13 @@ static void do_op(Cmd *c) {
         if (!have_it) o("st=- noiter ");
         else { void *e = PTR(777777);
             st = cc_treeset_iter_next(&it, &e); o_stat(st);
-            if (st == CC_OK) o(" out=%llu", VAL(e)); o(" "); }
+            if (st == CC_OK) o(" out=%llu", kval(e)); o(" "); }
     } else if (is_op(c, "it_remove")) {
         if (!have_it || it.i.current == ts->t->sentinel) o("st=- noiter ");   /* precondition: after a next */
         else { st = cc_treeset_iter_remove(&it, noout ? NULL : &out); o_stat(st);
             if (st == CC_OK && !noout) o(" out=%llu", VAL(out)); o(" "); }
     } else if (is_op(c, "observe")) {
-        o("st=- "); obs_abs(); o_sep(); phys(); return;
+        o("st=- "); obs_abs(); o_sep(); walk_blocks = 1; phys(); walk_blocks = !quiet; return;
     } else if (is_op(c, "destroy")) {
         cc_treeset_destroy(ts); ts = NULL; have_it = 0; o("st=- ");
     } else { o("st=- badop "); }
